@@ -249,7 +249,12 @@ func (c *Ctx) Solve(timeoutMs int, par int, crossCheck bool) {
 			}
 			if r.status == "unknown" && !o.Vacuity && !strings.Contains(o.goal.S, "(exists ") {
 				// look for a candidate counterexample without the quantified assumptions
-				r2 := runSolvers(c.QueryNoQuant(o), min(5000, timeoutMs), false, solvers[:1])
+				budget := min(5000, timeoutMs)
+				if o.KnownClass != "" {
+					// the recorded part of a known finding is expected to be satisfiable: look harder
+					budget = 30000
+				}
+				r2 := runSolvers(c.QueryNoQuant(o), budget, false, solvers[:2])
 				if r2.status == "sat" {
 					o.Model = parseModel(r2.out)
 					o.Candidate = true
